@@ -40,6 +40,11 @@ func TestVerifFilter(t *testing.T) {
 	}
 	for i := 0; i < n; i++ {
 		bs, frames := vStream(r, res.n(60, 400))
+		stray := i%5 == 4
+		if stray {
+			// stray start bytes in front of frames, truncated last frame: the expected output comes from the framing rules
+			bs, frames = vStreamStray(r), nil
+		}
 		display, record := i%2 == 1, i%4 >= 2
 		dir, _ := os.MkdirTemp("", "verif-filter")
 		cfg := jsonconfig.Config{DisplayMessages: display, RecordMessages: record, MessageLogDirectory: dir}
@@ -50,7 +55,7 @@ func TestVerifFilter(t *testing.T) {
 		chunks := []int{1 + r.Intn(5), 1 + r.Intn(64), 4096}
 		if rp != nil {
 			bs = vUnhx(rp["stream"])
-			frames = vFramesOf(start, bs)
+			frames, stray = nil, true
 			display, record = rp["display"] == "true", rp["record"] == "true"
 			delay, _ = time.ParseDuration(rp["delay"])
 			chunks = vInts(rp["chunks"])
@@ -58,6 +63,9 @@ func TestVerifFilter(t *testing.T) {
 		}
 		w := &slowWriter{delay: delay}
 		class := fmt.Sprintf("display=%v,record=%v", display, record)
+		if stray {
+			class += ",stray-start-bytes"
+		}
 		op := fmt.Sprintf("filter display=%v record=%v delay=%v chunks=%s stream=%s", display, record, delay, vIntsText(chunks), vhx(bs))
 		failure := ""
 		vMark(op)
@@ -83,6 +91,14 @@ func TestVerifFilter(t *testing.T) {
 			rec := readGlob(dir, "rtcmfilter.*.rtcm")
 			readable := readGlob(dir, "rtcm.*.txt")
 			var want []byte
+			segs := vSegments(bs)
+			if stray {
+				for _, sg := range segs {
+					if sg.typed {
+						frames = append(frames, sg.raw)
+					}
+				}
+			}
 			for _, f := range frames {
 				want = append(want, f...)
 			}
@@ -110,8 +126,8 @@ func TestVerifFilter(t *testing.T) {
 						entries++
 					}
 				}
-				if entries != len(ref) {
-					failure = fmt.Sprintf("the readable log has %d entries, %d messages were delivered", entries, len(ref))
+				if entries != len(segs) {
+					failure = fmt.Sprintf("the readable log has %d entries, the framing rules cut the input into %d messages", entries, len(segs))
 				}
 			}
 		}()
